@@ -155,6 +155,12 @@ def run(tier, seed, replay=None):
                 add('rising', [], f'(rising {e})', f'(&& (= {e} 0) (= (reval {e} 1) 1))', start, vcd, 'uv')
                 add('stable', [], f'(list (stable {e}) (unstable {e}) (falling {e}))',
                     f'(list (= {e} (reval {e} 1)) (!= {e} (reval {e} 1)) (&& (= {e} 1) (= (reval {e} 1) 0)))', start, vcd, 'uv')
+        # edge predicates over INDEX, TS and a virtual signal (operands that are no plain waveform signals)
+        for start in range(info['n']):
+            add('stable', [], '(list (stable INDEX) (unstable TS))', '(list (= 1 2) (= 1 1))', start, vcd, 'uv')
+            add('rising', ['(defsig vinv (- 1 top.clk))'], '(list (rising vinv) (falling vinv) (stable vinv) (unstable vinv))',
+                '(list (&& (= (- 1 top.clk) 0) (= (reval (- 1 top.clk) 1) 1)) (&& (= (- 1 top.clk) 1) (= (reval (- 1 top.clk) 1) 0)) '
+                '(= (- 1 top.clk) (reval (- 1 top.clk) 1)) (!= (- 1 top.clk) (reval (- 1 top.clk) 1)))', start, vcd, 'uv')
         # cond/when/unless against conditions of known truth (absolute reference, independent of the passes)
         TRUTH = [('0', False), ('1', True), ('#t', True), ('#f', False), ("'()", False), ("'(1)", True), ('""', False), ('"a"', True),
                  ("(rest '(1))", False), ('(+ 1 1)', True), ('(- 1 1)', False), ("'0", False), ("'a", True)]
